@@ -59,7 +59,8 @@ Definition srt_render_cue (crlf : bool) (c : srt_cue) : str :=
 
 Definition srt_render (crlf : bool) (cues : list srt_cue) : str := flat_map (srt_render_cue crlf) cues.
 
-Definition no_linebreak (l : str) : bool := forallb (fun c => negb (is_linebreak c)) l.
+(* a line of a document: no LF, no CR (every other character, U+2028 and VT included, is text) *)
+Definition no_linebreak (l : str) : bool := forallb (fun c => negb ((c =? 10) || (c =? 13))) l.
 Definition visible_line (l : str) : bool := match strip l with [] => false | _ => true end.
 Definition text_line_ok (l : str) : bool := no_linebreak l && visible_line l.
 
@@ -93,12 +94,19 @@ Definition vtt_render_stamp (t : vtt_stamp) : str :=
 (* the instant moved by the configured shift (milliseconds, any sign) *)
 Definition vtt_shifted (shift_ms : Z) (t : vtt_stamp) : Q := vtt_instant t + (shift_ms # 1000).
 
-Record vtt_cue := mkVttCue { vc_id : option str; vc_t0 : vtt_stamp; vc_t1 : vtt_stamp;
+(* a cue block: lines the reader must ignore before it (cue identifier, NOTE / STYLE / REGION blocks, stray
+   text - anything without "-->"), the timing line with blanks or tabs around the arrow, optional settings,
+   the text lines, one or more blank lines *)
+Record vtt_cue := mkVttCue { vc_pre : list str; vc_t0 : vtt_stamp; vc_t1 : vtt_stamp;
+                             vc_ws1 : str; vc_ws2 : str;
                              vc_settings : option str; vc_lines : list str; vc_gap : nat }.
 
+Definition blank_run (w : str) : bool :=
+  match w with [] => false | _ => forallb (fun c => (c =? 32) || (c =? 9)) w end.
+
 Definition vtt_render_cue (crlf : bool) (c : vtt_cue) : str :=
-  match vc_id c with Some i => i ++ nl crlf | None => [] end
-  ++ vtt_render_stamp (vc_t0 c) ++ arrow ++ vtt_render_stamp (vc_t1 c)
+  render_lines crlf (vc_pre c)
+  ++ vtt_render_stamp (vc_t0 c) ++ vc_ws1 c ++ lit "-->" ++ vc_ws2 c ++ vtt_render_stamp (vc_t1 c)
   ++ match vc_settings c with Some s => 32 :: s | None => [] end ++ nl crlf
   ++ render_lines crlf (vc_lines c)
   ++ concat (repeat (nl crlf) (S (vc_gap c))).
@@ -112,8 +120,9 @@ Definition vtt_cue_dom (c : vtt_cue) : bool :=
   vtt_stamp_dom (vc_t0 c) && vtt_stamp_dom (vc_t1 c)
   && forallb (fun l => text_line_ok l && no_arrow l) (vc_lines c)
   && match vc_lines c with [] => false | _ => true end
-  && match vc_id c with Some i => text_line_ok i && no_arrow i | None => true end
-  && match vc_settings c with Some s => no_linebreak s && no_arrow s | None => true end.
+  && forallb (fun l => no_linebreak l && no_arrow l) (vc_pre c)
+  && match vc_settings c with Some s => no_linebreak s && no_arrow s | None => true end
+  && blank_run (vc_ws1 c) && blank_run (vc_ws2 c).
 
 Definition vtt_expected (shift_ms : Z) (cues : list vtt_cue) : list (Z * Z) :=
   flat_map (fun c => match vc_lines c with
@@ -184,6 +193,23 @@ Definition dfxp_p_dom (p : dfxp_p) : bool := texpr_dom (p_begin p) && texpr_dom 
 Definition dfxp_p_expected (p : dfxp_p) : Z * Z :=
   let b := us (texpr_instant (p_begin p)) in
   (b, if p_is_dur p then b + us (texpr_instant (p_close p)) else us (texpr_instant (p_close p))).
+
+(* the other admissible reading of begin+dur: the exact sum floored once *)
+Definition dfxp_p_expected_alt (p : dfxp_p) : Z * Z :=
+  let b := us (texpr_instant (p_begin p)) in
+  (b, if p_is_dur p then us (texpr_instant (p_begin p) + texpr_instant (p_close p))
+      else us (texpr_instant (p_close p))).
+
+(* start exact; end one of the two readings *)
+Fixpoint pairs_alt_eqb (a b obs : list (Z * Z)) : bool :=
+  match a, b, obs with
+  | [], [], [] => true
+  | x :: a', y :: b', o :: obs' =>
+      (fst o =? fst x) && ((snd o =? snd x) || (snd o =? snd y)) && pairs_alt_eqb a' b' obs'
+  | _, _, _ => false
+  end.
+Definition ok_times_alt (e1 e2 : list (Z * Z)) (obs : result (list (Z * Z))) : bool :=
+  match obs with Ok l => pairs_alt_eqb e1 e2 l | Err _ => false end.
 
 Definition dfxp_p_attrs (p : dfxp_p) : option str * option str * option str :=
   (Some (texpr_render (p_begin p)),
